@@ -223,6 +223,7 @@ func init() {
 			func(c *Ctx) { c.rulePairInsert("R-PAIR") },
 			func(c *Ctx) { c.ruleSigChan("R-SIGCHAN") },
 			func(c *Ctx) { c.ruleRelock("R-RELOCK") },
+			func(c *Ctx) { c.ruleStartGate("R-STARTGATE") },
 			func(c *Ctx) { c.ruleOneDecoder("R-ONEDECODER") },
 			func(c *Ctx) { c.ruleIdleCheck("R-IDLECHECK") },
 			func(c *Ctx) { c.ruleAtomic("R-ATOMIC"); c.R.Floor("R-ATOMIC", 4) },
@@ -268,6 +269,7 @@ func init() {
 			func(c *Ctx) { c.ruleDeliver("R-DELIVER") },
 			func(c *Ctx) { c.ruleSticky("R-STICKY") },
 			func(c *Ctx) { c.ruleSigChan("R-SIGCHAN") },
+			func(c *Ctx) { c.ruleRefusalCloses("R-SIGCHAN") },
 			func(c *Ctx) { c.ruleRelock("R-RELOCK") },
 			func(c *Ctx) { c.ruleMustPass("R-MUSTPASS") },
 			func(c *Ctx) { c.ruleAtomic("R-ATOMIC"); c.R.Floor("R-ATOMIC", 4) },
@@ -383,6 +385,8 @@ func init() {
 			func(c *Ctx) { c.ruleKindGate("R-KINDGATE") },
 			func(c *Ctx) { c.ruleConvertAll("R-CONVERTALL"); c.R.Floor("R-CONVERTALL", 4) },
 			func(c *Ctx) { c.ruleBoundsConsulted("R-MUSTUSE") },
+			func(c *Ctx) { c.ruleCrossKindBounds("R-MUSTUSE") },
+			func(c *Ctx) { c.ruleDisabled("R-DISABLED") },
 			func(c *Ctx) { c.ruleTerm("R-TERM", c.entryData("ValidateCompatibility"), true); c.R.Floor("R-TERM", 1) },
 			func(c *Ctx) {
 				fns := map[*ssa.Function]bool{}
@@ -421,6 +425,7 @@ func init() {
 			"error by a newly built one, is a violation (3 genuine re-wraps on the one-of Validate path were found and repaired). R-VALSTRING - reflect.Value.String() only under a Kind()==String fact or on a Convert to a string type. NOT decided: that the segment text equals the " +
 			"user's key spelling; the order of segments (the prepend in AddPathSegment is value-level).",
 		Rules: []func(*Ctx){
+			func(c *Ctx) { c.ruleElemPath("R-ELEMPATH") },
 			func(c *Ctx) { c.ruleValueString("R-VALSTRING", c.scopePkg("schema")) },
 			func(c *Ctx) { c.ruleErrOrigin("R-ERRORIGIN") },
 			func(c *Ctx) { c.rulePathSeg("R-PATHSEG") },
@@ -479,6 +484,7 @@ func init() {
 			"order-sensitive accumulations with a total order unless they only feed an error message. R-MAPORDER also covers MapRange loops and loop-carried reads (a loop that fills a map reads it only at its own key). NOT decided: equality of repeated results as values.",
 		Assumptions: []string{wellFormed, "library effects come from a hand-written table; an unclassified library callee fails the check"},
 		Rules: []func(*Ctx){
+			func(c *Ctx) { c.ruleFieldUniq("R-FIELDUNIQ") },
 			func(c *Ctx) { c.ruleMapOrder("R-MAPORDER", c.M, c.scopePkg("schema")); c.R.Floor("R-MAPORDER", 30) },
 			func(c *Ctx) {
 				c.ruleEffect("R-EFFECT", c.entryData(pureAPI...), false, true)
